@@ -573,6 +573,43 @@ func checkC07(p *Prog, r *Report) {
 	// address before the first burn creates it (bank refuses transfers to blocked addresses, feegrant/vesting refuse to create accounts
 	// there). Otherwise auth's GetModuleAccount panics ("account is not a module account") inside the burn and every block halts.
 	checkBurnAccountBlocked(p, r, kp, modC)
+	// wherever module code itself constructs the burn module account (an upgrade handler "claiming" it, a genesis helper), it has
+	// the Burner permission: bank's BurnCoins panics on a module account without it, inside EndBlock
+	{
+		nCtor := 0
+		for _, fn := range p.ModFuncs {
+			if fn.Blocks == nil || p.IsGenerated(fn) || InPkgs(fn, "types/testsuite") {
+				continue
+			}
+			for _, cs := range callSites(fn) {
+				if !strings.HasSuffix(cs.Name, "x/auth/types.NewEmptyModuleAccount") && !strings.HasSuffix(cs.Name, "x/auth/types.NewModuleAccount") {
+					continue
+				}
+				args := cs.Instr.Common().Args
+				isBurn := false
+				for _, a := range args {
+					if c, ok := a.(*ssa.Const); ok && c.Value != nil && c.Value.ExactString() == modC {
+						isBurn = true
+					}
+				}
+				if !isBurn {
+					continue
+				}
+				nCtor++
+				hasBurner := false
+				if elems, ok := sliceLiteralElems(args[len(args)-1]); ok {
+					for _, e := range elems {
+						if c, ok := e.(*ssa.Const); ok && c.Value != nil && c.Value.ExactString() == `"burner"` {
+							hasBurner = true
+						}
+					}
+				}
+				r.Check(hasBurner, kp("WIRE", "burn-module-account-constructed@"+FuncName(fn)), "a burn module account constructed by module code carries the Burner permission", p.Pos(cs.Instr.Pos()),
+					"permissions include burner", FuncName(fn)+" constructs the burn module account without the Burner permission: once it is stored, the account keeper keeps it (maccPerms are only used when the account is first created), and bank's BurnCoins panics in EndBlock at the first deposit")
+			}
+		}
+		r.Count("burn-module-account-constructions", nCtor)
+	}
 	checkModuleExtensionInterfaces(p, r, "C07", []string{"x/burn"})
 	r.Check(has(w.Manager, Rel("x/burn")), kp("WIRE", "manager∋burn"), "the burn module is registered in the module manager", p.Pos(w.ManagerPos), "present", "burn.NewAppModule is not passed to module.NewManager")
 	// keeper built from the bank keeper
